@@ -3,6 +3,8 @@ package main
 import (
 	"fmt"
 	"strings"
+
+	"github.com/osteele/liquid/parser"
 )
 
 // Stream `verbatim` (property C05, render level): a source in which no tag or object opens renders
@@ -71,6 +73,9 @@ func verbatimStream(r *Run) {
 	}
 	env := map[string]*V{"x": VStr("X"), "a": VBool(true)}
 
+	if r.Shard == 0 {
+		verbatimUnclosedDelimiterFamily(r, run, out)
+	}
 	n := 6000
 	if r.Tier == "thorough" {
 		n = 80000
@@ -94,7 +99,7 @@ func verbatimStream(r *Run) {
 			}
 			res, cl := run(src, env, "raw")
 			if o, ok := out(res); !ok || o != pre+b+post {
-				r.Violate("C05", "raw-body-emitted-exactly", cl, fmt.Sprintf("want %q got %s", pre+b+post, res))
+				r.Violate("C05", rawClause("raw-body-emitted-exactly", b, "endraw"), cl, fmt.Sprintf("want %q got %s", pre+b+post, res))
 			}
 		case 1: // comment contributes nothing and is never evaluated (syntax errors, unknown tags, unbalanced blocks inside)
 			b := body(5, "endcomment")
@@ -108,7 +113,7 @@ func verbatimStream(r *Run) {
 			}
 			res, cl := run(src, env, "comment")
 			if o, ok := out(res); !ok || o != pre+post {
-				r.Violate("C05", "comment-contributes-nothing", cl, fmt.Sprintf("want %q got %s", pre+post, res))
+				r.Violate("C05", rawClause("comment-contributes-nothing", b, "endcomment"), cl, fmt.Sprintf("want %q got %s", pre+post, res))
 			}
 		case 4: // several raw and comment blocks in one template, in any order, with text between them
 			var src, want strings.Builder
@@ -196,6 +201,54 @@ func verbatimStream(r *Run) {
 			if o, ok := out(res); !ok || o != "["+s+"]" {
 				r.Violate("C05", "string-value-printed-exactly", cl, fmt.Sprintf("want %q got %s", s, res))
 			}
+		}
+	}
+}
+
+// rawClause names a failure of the raw / comment oracle. The tokenizer runs before the block parser knows that it
+// is inside a raw or comment block, so an opening delimiter in the body that is not closed inside the body takes the
+// end tag for its own closing delimiter ("{% raw %}{% b {% endraw %}": one tag named b with the arguments
+// "{% endraw"), and the block is reported as unterminated. That deviation is recorded in known_findings.json under
+// its own clause; anything else that goes wrong with a raw or comment body keeps the general clause.
+func rawClause(general, body, endName string) string {
+	if swallowsEndTag(body, endName) {
+		return general + ":unclosed-delimiter-in-body"
+	}
+	return general
+}
+
+// swallowsEndTag: the real tokenizer, given the body followed by the end tag, does not deliver that end tag.
+func swallowsEndTag(body, endName string) bool {
+	found := false
+	func() {
+		defer func() { recover() }()
+		for _, t := range parser.Scan(body+"{% "+endName+" %}", parser.SourceLoc{}, nil) {
+			if t.Type == parser.TagTokenType && t.Name == endName {
+				found = true
+			}
+		}
+	}()
+	return !found
+}
+
+// verbatimUnclosedDelimiterFamily: the recorded deviation, run on every check with fixed inputs so that it is
+// printed as KNOWN-FINDING while it persists (and is missed by nobody when it is repaired).
+func verbatimUnclosedDelimiterFamily(r *Run, run func(src string, env map[string]*V, kind string) (string, string), out func(string) (string, bool)) {
+	env := map[string]*V{"x": VStr("X")}
+	for _, c := range []struct{ open, body, end, general string }{
+		{"{% raw %}", "{% b ", "endraw", "raw-body-emitted-exactly"},
+		{"{% raw %}", "a {{ x ", "endraw", "raw-body-emitted-exactly"},
+		{"{% raw %}", "%}\t{%b c{{- x -}}", "endraw", "raw-body-emitted-exactly"},
+		{"{% comment %}", "{% if ", "endcomment", "comment-contributes-nothing"},
+	} {
+		src := "p" + c.open + c.body + "{% " + c.end + " %}q"
+		want := "pq"
+		if c.end == "endraw" {
+			want = "p" + c.body + "q"
+		}
+		res, cl := run(src, env, "unclosed-delimiter-in-body")
+		if o, ok := out(res); !ok || o != want {
+			r.Violate("C05", rawClause(c.general, c.body, c.end), cl, fmt.Sprintf("want %q got %s", want, res))
 		}
 	}
 }
